@@ -1,10 +1,12 @@
 mod calibrate;
+mod smoke;
 pub mod compile;
 
 fn main() {
     let args: Vec<String> = std::env::args().collect();
     let code = match args.get(1).map(|s| s.as_str()) {
         Some("calibrate") => calibrate::run(),
+        Some("smoke") => smoke::run(&args[2..]),
         _ => {
             eprintln!("usage: pdlv <calibrate|...>");
             2
